@@ -95,6 +95,6 @@ Qed.
 
 (* how many executions the statements above range over *)
 Lemma execution_counts :
-  length (all_runs (prog_save_chk_to_mpq true 3) (fs_of true true true)) = 48%nat /\
-  length (all_runs (prog_add_audio_files_to_mpq true 3 3) (fs_of true true true)) = 98%nat.
+  length (all_runs (prog_save_chk_to_mpq true 3) (fs_of true true true)) = 53%nat /\
+  length (all_runs (prog_add_audio_files_to_mpq true 3 3) (fs_of true true true)) = 108%nat.
 Proof. vm_compute. split; reflexivity. Qed.
